@@ -35,6 +35,12 @@ def cases(tier, seed, args):
                             iterations=int(rng.integers(1, 5)), seed=int(rng.integers(1 << 30)),
                             decades=int([100, 30, 0, 150 if not q else 100][(i // 7) % 4]), predict=bool(i % 2),
                             reuse=bool(i % 3 == 0), dim_given=bool(i % 5 == 0), saliency=bool(i % 4 == 1)))
+        for i in range(10 if q else 60):
+            kind = ['cwmm', 'cacgmm', 'cbmm', 'cwmm', 'vmfcacgmm'][i % 5]
+            nlead = 1 if kind in ml.INTEGRATION else int(i % 2)
+            out.append(dict(t='gain_mm', kind=kind, L=[2] * nlead, K=2, D=int(rng.integers(2, 4)), N=int(rng.integers(14, 24)),
+                            wca=(-1,), iterations=int(rng.integers(1, 4)), seed=int(rng.integers(1 << 30)), decades=20, predict=True,
+                            reuse=False, dim_given=False, saliency=False, single_precision=True))
         for i in range(24 if q else 200):
             out.append(dict(t='gain_dist', dist=['cacg', 'watson', 'bingham', 'vmf'][i % 4], fn=['log_pdf', 'fit'][(i // 4) % 2],
                             L=[int(rng.integers(1, 3))] * int(rng.integers(0, 2)), K=int(rng.integers(2, 4)),
@@ -66,6 +72,13 @@ def cases(tier, seed, args):
         for i in range(4 if q else 24):
             out.append(dict(t='perm_mm', kind='gmm', L=[], K=2, D=2 + i % 2, N=60, wca=(-1,), iterations=[3, 5][i % 2],
                             seed=int(rng.integers(1 << 30)), sam=False, saliency=False, regime='badscale'))
+        # boolean / integer initial masks that are not exact partitions
+        for i in range(7 if q else 42):
+            kind = ml.KINDS[i % 7]
+            nlead = 1 if kind in ml.INTEGRATION else int(i % 2)
+            out.append(dict(t='perm_mm', kind=kind, L=[2] * nlead, K=3, D=3, N=int(rng.integers(16, 26)), wca=(-1,),
+                            iterations=[1, 2][i % 2], seed=int(rng.integers(1 << 30)), sam=False, saliency=False, regime='regular',
+                            init_dtype=['bool', 'int64', 'float32'][(i // 7) % 3]))
         # long runs on overlapping classes (EM slows down / plateaus within the budget), K >= 3
         for i in range(6 if q else 36):
             kind = ['cwmm', 'cacgmm', 'cwmm', 'gmm', 'cwmm', 'vmfmm'][i % 6]
@@ -105,6 +118,19 @@ def cases(tier, seed, args):
             out.append(dict(t='stack_dist', dist=['bingham', 'bingham', 'watson', 'cacg'][i % 4], fn=['fit', 'log_pdf'][(i // 4) % 2],
                             L=[int(rng.integers(2, 4))], D=int(rng.integers(2, 4)), N=int(rng.integers(8, 16)),
                             seed=int(rng.integers(1 << 30)), saliency=bool(i % 3 == 0), degenerate_slice=False, near_dup=True))
+        # user saliency per observation; the number of slices equals the number of classes (shape coincidences)
+        for i in range(10 if q else 60):
+            kind = ['gmm', 'vmfmm', 'cwmm', 'cacgmm', 'cbmm'][i % 5]
+            K = 2 + (i // 5) % 2
+            out.append(dict(t='stack_mm', kind=kind, L=[[K], [1, K], [K, K]][(i // 10) % 3] if not q else [[K], [K]][i % 2], K=K, D=int(rng.integers(2, 4)),
+                            N=int(rng.integers(10, 16)), iterations=int(rng.integers(1, 3)), seed=2 * int(rng.integers(1 << 29)),
+                            covariance_type=['full', 'diagonal', 'spherical'][i % 3], singleton_init=False, degenerate_slice=False,
+                            covariance_norm='eigenvalue', rank_deficient=False, saliency=True))
+        # cACG fixed-point iteration: every normalisation x several iteration counts on stacks of different slices
+        for i in range(6 if q else 36):
+            out.append(dict(t='stack_dist', dist='cacg', fn=['fit', 'log_pdf'][i % 2], L=[[2], [3], [2, 2]][(i // 2) % 3],
+                            D=int(rng.integers(2, 4)), N=int(rng.integers(8, 16)), seed=2 * int(rng.integers(1 << 29)), saliency=False,
+                            degenerate_slice=False, cacg_norm=['none', 'trace', 'eigenvalue'][(i // 2) % 3], cacg_iterations=[3, 5, 8][i % 3]))
         # two genuine leading axes in Fortran-ordered buffers (C and Fortran order of the parameter arrays differ)
         for i in range(8 if q else 32):
             out.append(dict(t='stack_dist', dist=['gauss_spherical', 'gauss_diagonal', 'gauss_full', 'vmf'][i % 4], fn=['fit', 'log_pdf'][(i // 4) % 2],
@@ -158,13 +184,19 @@ def _gain_mm(case):
     tkw = {}
     if case.get('dim_given') and kind in ('cwmm', 'cbmm'):
         tkw['dimension'] = D
+    single = bool(case.get('single_precision')) and not real
+    if single:
+        # single-precision complex observations (gains limited to 1e+-3): the same relation at float32 accuracy
+        c = 10.0 ** rng.uniform(-3, 3, size=(*L, N, 1)) * np.exp(2j * np.pi * rng.random((*L, N, 1)))
+        data = dict(data, y=data['y'].astype(np.complex64))
+        data_b = dict(data_b, y=(data['y'].astype(np.complex128) * c).astype(np.complex64))
     trainer_b = ml.trainer_for(kind, **tkw)
     if case.get('reuse'):
         # history: the trainer used for run B has fitted other data before
         call(ml.fit, kind, data, init, 1, opts, trainer=trainer_b)
     ma, ea = call(ml.fit, kind, data, init, case['iterations'], opts)
     mb, eb = call(ml.fit, kind, data_b, init, case['iterations'], opts, trainer=trainer_b)
-    fp = f't=gain_mm;model={kind};wca={case["wca"]};reuse={case.get("reuse")};dim_given={case.get("dim_given")}'
+    fp = f't=gain_mm;model={kind};wca={case["wca"]};reuse={case.get("reuse")};dim_given={case.get("dim_given")};single={single}'
     key = f'gain:{case["seed"]}'
     if ma is None or mb is None:
         return [ml.twin_record('same', None, None, kind=kind, wca=case['wca'], exc=(ea or eb), fp=fp, key=key)]
@@ -183,9 +215,19 @@ def _gain_mm(case):
             rawA.append(np.asarray(la).reshape(1))
             rawB.append(np.asarray(lb).reshape(1))
     # fine residual bound: 2^-22 (2.4e-7) of |a|+|b|+floor; the Bingham solver is only reproducible to ~1e-3
-    return [ml.twin_record('same', A, B, kind=kind, wca=case['wca'], exc=e1 or e2, fp=fp, key=key,
-                           slack=2048 if kind == 'cbmm' else 256, fine=-8 if kind == 'cbmm' else -22,
-                           raw=None if (pa is None or pb is None) else (rawA, rawB))]
+    recs = [ml.twin_record('same', A, B, kind=kind, wca=case['wca'], exc=e1 or e2, fp=fp, key=key,
+                           slack=2048 if kind == 'cbmm' else (1024 if single else 256),
+                           fine=0 if single else (-8 if kind == 'cbmm' else -22),
+                           raw=None if (pa is None or pb is None or single) else (rawA, rawB))]
+    if case['seed'] % 2 and pa is not None:
+        # the one-call entry point: fit_predict on the scaled data against fit + predict on the original
+        pfp, e5 = call(ml.fit, kind, data_b, init, case['iterations'], opts, ml.trainer_for(kind, **tkw), True)
+        if isinstance(pfp, tuple):
+            pfp = pfp[-1]
+        recs.append(ml.twin_record('same', [ml._field('posterior', pa)], [ml._field('posterior', pfp)] if pfp is not None else None,
+                                   kind=kind, wca=case['wca'], exc=e5, fp=fp + ';fit_predict', key=key + ':fp',
+                                   slack=2048 if kind == 'cbmm' else (1024 if single else 256)))
+    return recs
 
 
 def _dist(dist, rng, L, K, D):
@@ -261,6 +303,16 @@ def _perm_mm(case):
     if regime == 'badscale' and kind == 'gmm':
         init = 0.9 * np.moveaxis(np.eye(K)[lab], -1, -2) + 0.1 / K
         init = init / init.sum(-2, keepdims=True)
+    if case.get('init_dtype'):
+        # hard masks that are not a partition: overlapping classes and observations without any class, given as bool / int
+        hard = rng.random((*L, K, N)) < 0.45
+        hard[..., 0] = True                  # observation 0: every class; observation 1: none
+        hard[..., 1] = False
+        for j, pair in enumerate(itertools.combinations(range(K), 2)):      # one observation per pair of classes
+            if 2 + j < N:
+                hard[..., 2 + j] = False
+                hard[..., list(pair), 2 + j] = True
+        init = hard.astype(case['init_dtype'])
     if regime == 'neartie':
         init = ml.make_init(rng, L, K, N)
         init[..., 1, :] = init[..., 0, :] * (1 + 1e-3 * rng.uniform(-1, 1, size=init[..., 0, :].shape))
@@ -281,12 +333,18 @@ def _perm_mm(case):
         opts['source_activity_mask'] = sam
     perms = list(itertools.permutations(range(K)))
     pi = list(perms[int(rng.integers(1, len(perms)))])
-    ma, ea = call(ml.fit, kind, data, init, case['iterations'], opts)
+    # one trainer object for both runs (every other case): a trainer keeps no state between fits
+    shared = ml.trainer_for(kind) if case['seed'] % 2 else None
+    ma, ea = call(ml.fit, kind, data, init, case['iterations'], opts, shared)
     opts_b = dict(opts)
     if sam is not None:
         opts_b['source_activity_mask'] = np.ascontiguousarray(sam[..., pi, :])
-    mb, eb = call(ml.fit, kind, data, np.ascontiguousarray(init[..., pi, :]), case['iterations'], opts_b)
-    fp = f't=perm_mm;model={kind};wca={case["wca"]};it={case["iterations"]};sam={case.get("sam")};regime={regime};inline_pa={bool(case.get("inline_pa"))}'
+    init_b = np.ascontiguousarray(init[..., pi, :])
+    if case.get('init_dtype'):
+        init_b = init_b.astype(case['init_dtype'])
+    mb, eb = call(ml.fit, kind, data, init_b, case['iterations'], opts_b, shared)
+    fp = f't=perm_mm;model={kind};wca={case["wca"]};it={case["iterations"]};sam={case.get("sam")};regime={regime};inline_pa={bool(case.get("inline_pa"))}' \
+         f';shared_trainer={shared is not None};init_dtype={case.get("init_dtype")}'
     key = f'perm:{case["seed"]}'
     if ma is None or mb is None:
         # a failure of only ONE of the two runs is label dependent behaviour
@@ -332,6 +390,9 @@ def _stack_mm(case):
         data['y'][idx][..., -1] = 0
         for j, ix in enumerate(np.ndindex(*L)):
             data['y'][ix] = data['y'][ix] * (1.0 + 0.5 * j)
+    sal = None
+    if case.get('saliency') and kind not in ml.INTEGRATION:
+        sal = rng.uniform(0.2, 2.0, size=(*L, N))          # one weight per observation, different in every slice
     init_arg = init
     if case.get('singleton_init') and kind == 'cacgmm' and len(L) >= 1:
         # singleton leading axes of the initial affiliation behave as if repeated
@@ -340,14 +401,14 @@ def _stack_mm(case):
         init_arg = init_s
         init = np.broadcast_to(init_s, (*L, K, N))
     data_s = data
-    if case['seed'] % 2 and not case.get('singleton_init'):
+    if case['seed'] % 2 and not case.get('singleton_init') and not case.get('degenerate_slice'):
         # the stacked call sees the same values in Fortran-ordered buffers (transposed views, loadmat output); the individual
         # calls below get plain C-ordered slices
         data_s = {k: np.asfortranarray(v) for k, v in data.items()}
         init_arg = np.asfortranarray(init_arg)
-    ms, es = call(ml.fit, kind, data_s, init_arg, case['iterations'], opts)
+    ms, es = call(ml.fit, kind, data_s, init_arg, case['iterations'], dict(opts, **({'saliency': sal} if sal is not None else {})))
     fp = f't=stack_mm;model={kind};lead={len(L)};cov={case["covariance_type"] if kind == "gmm" else ""};' \
-         f'singleton_init={bool(case.get("singleton_init"))};layout={"F" if data_s is not data else "C"}'
+         f'singleton_init={bool(case.get("singleton_init"))};layout={"F" if data_s is not data else "C"};sal={sal is not None}'
     recs = []
     ps = None
     if ms is not None:
@@ -358,7 +419,8 @@ def _stack_mm(case):
     idxs = [first] + [i for i in idxs if i != first]       # the special (degenerate / rank-deficient) slice is always compared
     for idx in idxs[:3]:
         d1 = {k: np.ascontiguousarray(v[idx]) for k, v in data.items()}
-        m1, e1 = call(ml.fit, kind, d1, np.ascontiguousarray(init[idx]), case['iterations'], opts)
+        opts1 = dict(opts, **({'saliency': np.ascontiguousarray(sal[idx])} if sal is not None else {}))
+        m1, e1 = call(ml.fit, kind, d1, np.ascontiguousarray(init[idx]), case['iterations'], opts1)
         key = f'stack:{case["seed"]}:{idx}'
         if m1 is None:
             continue                      # the slice alone fails as well: not a stacking issue
@@ -374,7 +436,7 @@ def _stack_mm(case):
             # slice (the same fit with data and initialisation moved by one ulp)
             raw = (ml.model_arrays(kind, ms, posterior=ps), ml.model_arrays(kind, m1, posterior=p1))
             dp = {k: ml.ulp_perturb(rng, v) for k, v in d1.items()}
-            mp_, _ = call(ml.fit, kind, dp, ml.ulp_perturb(rng, np.ascontiguousarray(init[idx])), case['iterations'], opts)
+            mp_, _ = call(ml.fit, kind, dp, ml.ulp_perturb(rng, np.ascontiguousarray(init[idx])), case['iterations'], opts1)
             pp, _ = (None, '') if mp_ is None else call(ml.predict, kind, mp_, dp)
             if pp is not None:
                 amp = ml.amp_of(raw[1], ml.model_arrays(kind, mp_, posterior=pp))
@@ -407,6 +469,9 @@ def _stack_dist(case):
     if dist == 'cacg':
         kw['covariance_norm'] = ['eigenvalue', 'trace', False][case['seed'] % 3]
         kw['iterations'] = 1 + case['seed'] % 3
+        if 'cacg_norm' in case:
+            kw['covariance_norm'] = {'eigenvalue': 'eigenvalue', 'trace': 'trace', 'none': False}[case['cacg_norm']]
+            kw['iterations'] = case['cacg_iterations']
         if case['seed'] % 2:
             y[tuple(0 for _ in L)][..., -1] = 0          # rank-deficient slice
             y = y * (1.0 + np.arange(int(np.prod(L))).reshape(*L, 1, 1))
@@ -417,6 +482,10 @@ def _stack_dist(case):
             k2['saliency'] = ss
         return tr().fit(yy, **k2)
     lay = case.get('layout') or ('F' if case['seed'] % 2 else 'C')
+    if case.get('degenerate_slice'):
+        # exactly coinciding observations sit on a discontinuity of the estimator (mean resultant length exactly one): only
+        # bit-identical arithmetic is comparable there, and a different memory order changes the summation order
+        lay = 'C'
     fp = f't=stack_dist;dist={dist};fn={case["fn"]};lead={len(L)};layout={lay}'
     # layout F: the stacked call sees the same values in Fortran-ordered buffers, the individual calls C-ordered slices
     ms, es = call(fit, np.asfortranarray(y) if lay == 'F' else y, (np.asfortranarray(sal) if sal is not None else None) if lay == 'F' else sal)
